@@ -479,6 +479,12 @@ bool Interp::doUnary(const Step& s)
     if (W.fs[fa].dom != W.fs[fc].dom) { skip("un-domain"); return true; }
     if (op != "INDEXSET" && W.fs[fa].rel != W.fs[fc].rel) { skip("un-shape"); return true; }
     if (op == "INDEXSET") return true;     // handled in doExtra
+    {
+        // operand and result forests must have the same variable order (reordered forests)
+        std::vector<int> oa(size_t(W.domOf(fa).K()) + 1), oc(oa.size());
+        W.F[fa]->getVariableOrder(oa.data()); W.F[fc]->getVariableOrder(oc.data());
+        if (oa != oc) { skip("un-order"); return true; }
+    }
     // known finding (known_findings.json, KF-C05-distinc-identity): excluded from the campaign by
     // construction and counted; the corpus replays it in strict mode
     if (op == "DIST_INC" && W.fs[fa].rel && W.fs[fa].red == 'I' && !strictErrors) {
